@@ -144,6 +144,10 @@ def main(argv):
         for o in pick[:3]:
             samples.append(dict(job=jn, obligation=o['name'], description=o['description'],
                                 where='%s:%s' % (o['file'], o['line']), status=o['status']))
+        if notok and not bad:
+            # selected obligations that CBMC neither discharged nor refuted (UNKNOWN after a refuted obligation
+            # outside the selection on the same path): the property is undecided on this job, not violated
+            undecided.append((jn, 'selected obligations not decided: ' + ', '.join('%s=%s' % (o['name'], o['status']) for o in notok[:4])))
         for o in bad:
             kf = match_known(known, pid, jn, o)
             if kf:
